@@ -20,8 +20,14 @@ func (x *Exec) simpleBranch(b, join *ssa.BasicBlock, li *loopInfo) bool {
 				return false
 			}
 		case *ssa.Call:
-			bi, ok := i.Call.Value.(*ssa.Builtin)
-			if !ok || (bi.Name() != "len" && bi.Name() != "append") {
+			if bi, ok := i.Call.Value.(*ssa.Builtin); ok {
+				if bi.Name() != "len" && bi.Name() != "append" {
+					return false
+				}
+				continue
+			}
+			// calls that are handled modularly (contract, no inlining, no iterator) do not fork paths
+			if !x.modularCall(&i.Call) {
 				return false
 			}
 		default:
@@ -129,12 +135,12 @@ func (x *Exec) tryMergeDiamond(s *State, fr *Frame, c *Term, tb, fb *ssa.BasicBl
 	for k := range keys {
 		h1, ok1 := s1.heap[k]
 		h2, ok2 := s2.heap[k]
-		t := s.heapT[k]
+		es := s.heapSort[k]
 		if !ok1 {
-			_, h1 = x.heapMap(s1, t)
+			h1 = x.heapArr(s1, k, es)
 		}
 		if !ok2 {
-			_, h2 = x.heapMap(s2, t)
+			h2 = x.heapArr(s2, k, es)
 		}
 		s.heap[k] = Ite(c, h1, h2)
 	}
@@ -151,6 +157,10 @@ func (x *Exec) tryMergeDiamond(s *State, fr *Frame, c *Term, tb, fb *ssa.BasicBl
 	}
 	if s2.dead {
 		s.assume(c)
+	}
+	if s1.allocBase != s2.allocBase {
+		// cannot happen for simple branches (no loop cuts inside)
+		panic(x.subsetf("diamond merge across different allocation bases"))
 	}
 	if s2.nalloc > s1.nalloc {
 		s.nalloc = s2.nalloc
@@ -203,4 +213,26 @@ func sameMeta(a, b Value) bool {
 		return a.Fn == b.Fn
 	}
 	return a.Loc == nil && b.Loc == nil && a.Tup == nil && b.Tup == nil
+}
+
+// modularCall reports whether the call will be executed through a contract (callSpec) without pushing a frame.
+func (x *Exec) modularCall(c *ssa.CallCommon) bool {
+	var key string
+	inRepo := false
+	if c.IsInvoke() {
+		key = funcKeyOf(c.Method)
+	} else if fn, ok := c.Value.(*ssa.Function); ok {
+		key = fnKey(fn)
+		inRepo = fn.Pkg != nil && fn.Pkg.Pkg != nil && len(fn.Blocks) > 0 && len(fn.Pkg.Pkg.Path()) >= len(repoModule) && fn.Pkg.Pkg.Path()[:len(repoModule)] == repoModule
+	} else {
+		return false
+	}
+	spec := x.w.FuncSpecs[key]
+	if spec == nil || iterSpecKeys[key] {
+		return false
+	}
+	if spec.Inline && inRepo {
+		return false
+	}
+	return true
 }
